@@ -10,14 +10,18 @@ type PropRun struct {
 var Registry = map[string]PropRun{
 	"C01": {"other", RunC01},
 	"C02": {"other", RunC02},
+	"C03": {"other", RunC03},
 	"C04": {"proof", RunC04},
+	"C05": {"other", RunC05},
 	"C06": {"other", RunC06},
 	"C07": {"other", RunC07},
 	"C08": {"other", RunC08},
 	"C09": {"other", RunC09},
 	"C10": {"other", RunC10},
 	"C11": {"other", RunC11},
+	"C12": {"other", RunC12},
 	"C13": {"other", RunC13},
+	"C14": {"other", RunC14},
 	"C15": {"other", RunC15},
 	"C16": {"other", RunC16},
 	"C17": {"proof", RunC17},
